@@ -120,3 +120,206 @@ Proof.
   - unfold ident in Hk. destruct (ident_not _ Hk) as (M1 & M2 & M3 & M4 & M5 & M6 & M7). cbn. rewrite Hk. cbn. rewrite Hc. cbn. rewrite Hskip. reflexivity.
   - unfold ident in Hk. cbn. rewrite Hk. cbn. rewrite (Hkt WHITESPACE) by discriminate. cbn. rewrite Hskip. reflexivity.
 Qed.
+
+Lemma tk_eqb_refl k : tk_eqb k k = true.
+Proof. unfold tk_eqb. apply N.eqb_refl. Qed.
+Lemma is_tk_mk k l : is_tk k (mk k :: l) = true.
+Proof. unfold is_tk. cbn [hd_tk tk mk]. apply tk_eqb_refl. Qed.
+
+Lemma after_restr_more rs k : after_restr (toks_restrs_more rs ++ k).
+Proof. destruct rs; [right|left]; reflexivity. Qed.
+
+Lemma hd_ident_ws_no (t : tok) l : ident t -> skip_opt WHITESPACE (t :: l) = t :: l.
+Proof. intros H. cbn [skip_opt]. destruct (ident_not _ H) as (_ & _ & _ & _ & -> & _). reflexivity. Qed.
+
+Lemma toks_restr_hd r : exists l, toks_restr r = rs_type r :: l.
+Proof. unfold toks_restr. eexists. reflexivity. Qed.
+
+Lemma p_restr_more_complete : forall rs fuel k,
+  Forall restr_ok rs -> (length rs < fuel)%nat ->
+  p_restr_more fuel (toks_restrs_more rs ++ k) = Some (rs, k).
+Proof.
+  induction rs as [|r rs IH]; intros fuel k Hok Hf; (destruct fuel as [|f]; [lia|]).
+  - cbn. reflexivity.
+  - inversion Hok as [|? ? Hr Hrs]; subst. cbn [toks_restrs_more p_restr_more app is_tk hd_tk tk mk tl].
+    cbn [tk_eqb tk_code N.eqb Pos.eqb]. cbn [skip_opt tk mk tk_eqb tk_code N.eqb Pos.eqb].
+    rewrite <- app_assoc. destruct (toks_restr_hd r) as [l El]. rewrite El. cbn [app].
+    destruct Hr as (Ht & Hr2). rewrite is_tk_mk, tk_eqb_refl. change (rs_type r :: l ++ toks_restrs_more rs ++ k) with ((rs_type r :: l) ++ toks_restrs_more rs ++ k).
+    rewrite <- El. rewrite (p_restr_complete r _ (conj Ht Hr2) (after_restr_more rs k)).
+    assert (Hsk : skip_opt WHITESPACE (toks_restrs_more rs ++ k) = toks_restrs_more rs ++ k) by (destruct rs; reflexivity).
+    rewrite Hsk. rewrite (IH f k Hrs) by (cbn in Hf; lia). reflexivity.
+Qed.
+
+Lemma p_direct_complete rs k :
+  rs <> [] -> Forall restr_ok rs -> p_direct (toks_direct rs ++ k) = Some (rs, k).
+Proof.
+  intros Hne Hok. destruct rs as [|r rs]; [contradiction|]. inversion Hok as [|? ? Hr Hrs]; subst.
+  unfold p_direct, toks_direct. cbn [app expect tk mk tk_eqb tk_code N.eqb Pos.eqb].
+  rewrite <- app_assoc. destruct (toks_restr_hd r) as [l El]. rewrite El. cbn [app].
+  destruct Hr as (Ht & Hr2). rewrite tk_eqb_refl. rewrite (hd_ident_ws_no _ _ Ht).
+  change (rs_type r :: l ++ toks_restrs_more rs ++ k) with ((rs_type r :: l) ++ toks_restrs_more rs ++ k). rewrite <- El.
+  rewrite (p_restr_complete r _ (conj Ht Hr2) (after_restr_more rs k)).
+  assert (Hsk : skip_opt WHITESPACE (toks_restrs_more rs ++ k) = toks_restrs_more rs ++ k) by (destruct rs; reflexivity).
+  rewrite Hsk. rewrite p_restr_more_complete; [reflexivity|exact Hrs|].
+  rewrite app_length. assert (length rs <= length (toks_restrs_more rs))%nat.
+  { clear. induction rs as [|x rs IH]; cbn [toks_restrs_more length]; [lia|]. rewrite app_length. lia. }
+  lia.
+Qed.
+
+(* what may follow an operand: " op ...", ")" or the end of the definition — never " from" *)
+Definition after_operand (k : list tok) : Prop := is_tk WHITESPACE k && is_tk2 FROM k = false.
+
+Lemma p_rewrite_complete cu ts k :
+  ident cu -> match ts with Some t => ident t | None => True end -> after_operand k ->
+  p_rewrite (toks_elem (ERewrite cu ts) ++ k) = Some (ERewrite cu ts, k).
+Proof.
+  intros Hcu Hts Hk. unfold p_rewrite. destruct ts as [t|]; cbn [toks_elem app expect_p].
+  - unfold ident in *. rewrite Hcu. cbn. rewrite Hts. reflexivity.
+  - unfold ident in *. rewrite Hcu. unfold after_operand in Hk. rewrite Hk. reflexivity.
+Qed.
+
+(* ---- definitions: operands, partials, the knot ---- *)
+Definition depth_def (first : relem) (rest : list relem) : nat := Nat.max (depth first) (depth_all rest).
+
+Definition def_ok (direct : bool) (first : relem) (op : opk) (rest : list relem) : Prop :=
+  (if direct then wf_leading first else wf_operand first) = true /\ partials_ok op rest = true /\
+  forallb wf_operand rest = true /\ toks_ok first /\ toks_ok_all rest.
+
+Definition RecOK (rec : bool -> list tok -> P def_result) (dd : nat) : Prop :=
+  forall direct first op rest k,
+    (depth_def first rest < dd)%nat -> def_ok direct first op rest -> stops k ->
+    rec direct (toks_def first op rest ++ k) = Some ((first, op, rest), k).
+
+Lemma stops_after_operand k : stops k -> after_operand k.
+Proof. intros H. unfold after_operand. rewrite (stops_not_ws k H). reflexivity. Qed.
+
+Lemma stops_rparen k : stops (mk RPAREN :: k).
+Proof. unfold stops. cbn. discriminate. Qed.
+
+Lemma ws_op_after_operand op l : op <> ONone -> after_operand (mk WHITESPACE :: mk (optok op) :: l).
+Proof. intros H. unfold after_operand. unfold is_tk2. cbn [hd2_tk tk mk]. destruct op; try contradiction; cbn [optok]; apply andb_false_r. Qed.
+
+Lemma elem_hd_not_ws e l : toks_ok e -> skip_opt WHITESPACE (toks_elem e ++ l) = toks_elem e ++ l.
+Proof.
+  intros H. destruct e as [rs|cu ts|nd f o r].
+  - destruct rs; reflexivity.
+  - cbn [toks_ok] in H. destruct H as [Hc _]. destruct ts; cbn [toks_elem app]; apply hd_ident_ws_no; exact Hc.
+  - reflexivity.
+Qed.
+
+(* an operand that is not in leading position *)
+Lemma operand_complete rec dd e k :
+  RecOK rec dd -> (depth e <= dd)%nat -> wf_operand e = true -> toks_ok e -> after_operand k ->
+  p_operand_with rec (toks_elem e ++ k) = Some (e, k).
+Proof.
+  intros HR Hd Hwf Hok Hk. unfold p_operand_with. destruct e as [rs|cu ts|nd f o r]; [discriminate Hwf| |].
+  - cbn [toks_ok] in Hok. destruct Hok as [Hc Ht]. assert (Hnl : is_tk LPAREN (toks_elem (ERewrite cu ts) ++ k) = false).
+    { destruct (ident_not _ Hc) as (_ & N2 & _). destruct ts; cbn; exact N2. }
+    rewrite Hnl. apply p_rewrite_complete; assumption.
+  - destruct nd; [|discriminate Hwf]. cbn [wf_operand] in Hwf. apply andb_prop in Hwf. destruct Hwf as [Hwf Hr].
+    apply andb_prop in Hwf. destruct Hwf as [Hf Hp]. destruct (proj1 (toks_ok_group _ _ _ _) Hok) as [Okf Okr].
+    rewrite depth_group in Hd.
+    rewrite toks_elem_group. cbn [app]. rewrite is_tk_mk. cbn [tl]. rewrite <- app_assoc. cbn [app].
+    unfold toks_def at 1. rewrite <- app_assoc. rewrite (elem_hd_not_ws f _ Okf). rewrite app_assoc. fold (toks_def f o r).
+    rewrite (HR false f o r (mk RPAREN :: k)); [|unfold depth_def; lia|repeat split; assumption|apply stops_rparen].
+    cbn [skip_opt tk mk]. replace (tk_eqb RPAREN WHITESPACE) with false by reflexivity. cbn [expect tk mk]. rewrite tk_eqb_refl. reflexivity.
+Qed.
+
+Lemma op_of_optok op : op <> ONone -> op_of_tk (optok op) = op.
+Proof. destruct op; try reflexivity. contradiction. Qed.
+
+Lemma opk_eqb_refl op : opk_eqb op op = true. Proof. destruct op; reflexivity. Qed.
+
+Lemma partials_complete rec dd op : op <> ONone -> RecOK rec dd ->
+  forall rest fuel k,
+    (depth_all rest <= dd)%nat -> forallb wf_operand rest = true -> toks_ok_all rest -> stops k ->
+    (length rest < fuel)%nat -> (op = OButNot -> (length rest <= 1)%nat) ->
+    rest <> [] \/ op <> OButNot ->
+    p_partials_with rec fuel op (toks_partials op rest ++ k) = Some (rest, k).
+Proof.
+  intros Hop HR. induction rest as [|e rest IH]; intros fuel k Hd Hwf Hok Hk Hf Hbn Hne; (destruct fuel as [|f]; [lia|]).
+  - cbn [toks_partials app p_partials_with]. unfold peek_op. rewrite (stops_not_ws k Hk).
+    destruct op; try contradiction; reflexivity.
+  - cbn [forallb] in Hwf. apply andb_prop in Hwf. destruct Hwf as [He Hr]. destruct Hok as [Oke Okr]. cbn [depth_all] in Hd.
+    cbn [toks_partials app p_partials_with]. unfold peek_op. rewrite is_tk_mk. cbn [hd2_tk tk mk].
+    rewrite (op_of_optok op Hop), opk_eqb_refl. cbn [tl expect tk mk]. rewrite tk_eqb_refl.
+    rewrite <- app_assoc.
+    assert (Hafter : after_operand (toks_partials op rest ++ k)).
+    { destruct rest; [apply stops_after_operand; exact Hk|cbn [toks_partials app]; apply ws_op_after_operand; exact Hop]. }
+    rewrite (operand_complete rec dd e _ HR); [|lia|exact He|exact Oke|exact Hafter].
+    destruct op; try contradiction.
+    + rewrite (IH f k); try assumption; try reflexivity; try (cbn [length] in Hf; lia); [intros E; discriminate E|right; intros E; discriminate E].
+    + rewrite (IH f k); try assumption; try reflexivity; try (cbn [length] in Hf; lia); [intros E; discriminate E|right; intros E; discriminate E].
+    + specialize (Hbn eq_refl). cbn in Hbn. destruct rest; [reflexivity|cbn in Hbn; lia].
+Qed.
+
+Lemma def_body_complete rec dd direct first op rest k :
+  RecOK rec dd -> (depth_def first rest <= dd)%nat -> def_ok direct first op rest -> stops k ->
+  p_def_body rec direct (toks_def first op rest ++ k) = Some ((first, op, rest), k).
+Proof.
+  intros HR Hd (Hf & Hp & Hr & Okf & Okr) Hk. unfold depth_def in Hd. unfold p_def_body, toks_def. rewrite <- app_assoc.
+  assert (Hop : rest <> [] -> op <> ONone) by (intros H E; subst op; destruct rest; [contradiction|discriminate Hp]).
+  assert (Hafter : after_operand (toks_partials op rest ++ k)).
+  { destruct rest as [|e r]; [apply stops_after_operand; exact Hk|cbn [toks_partials app]; apply ws_op_after_operand; apply Hop; discriminate]. }
+  (* the first operand *)
+  assert (Hfirst :
+    (if is_tk LBRACKET (toks_elem first ++ toks_partials op rest ++ k) then
+       if direct then do (rs, ts) <- p_direct (toks_elem first ++ toks_partials op rest ++ k); Some (EDirect rs, ts) else None
+     else if is_tk LPAREN (toks_elem first ++ toks_partials op rest ++ k) then
+       if direct then
+         do (d, ts) <- rec true (skip_opt WHITESPACE (tl (toks_elem first ++ toks_partials op rest ++ k)));
+         do (_, ts) <- expect RPAREN (skip_opt WHITESPACE ts);
+         let '(fi, op, rest) := d in Some (EGroup false fi op rest, ts)
+       else p_operand_with rec (toks_elem first ++ toks_partials op rest ++ k)
+     else p_rewrite (toks_elem first ++ toks_partials op rest ++ k)) = Some (first, toks_partials op rest ++ k)).
+  { destruct first as [rs|cu ts|nd f o r].
+    - destruct direct; [|discriminate Hf]. cbn [toks_ok] in Okf. destruct Okf as [Hne Hall].
+      assert (Hb : is_tk LBRACKET (toks_elem (EDirect rs) ++ toks_partials op rest ++ k) = true) by (destruct rs; [contradiction|reflexivity]).
+      rewrite Hb. cbn [toks_elem]. rewrite (p_direct_complete rs _ Hne Hall). reflexivity.
+    - cbn [toks_ok] in Okf. destruct Okf as [Hc Ht]. destruct (ident_not _ Hc) as (N1 & N2 & _).
+      assert (Hb : is_tk LBRACKET (toks_elem (ERewrite cu ts) ++ toks_partials op rest ++ k) = false) by (destruct ts; exact N1).
+      assert (Hl : is_tk LPAREN (toks_elem (ERewrite cu ts) ++ toks_partials op rest ++ k) = false) by (destruct ts; exact N2).
+      rewrite Hb, Hl. apply p_rewrite_complete; assumption.
+    - assert (Hb : is_tk LBRACKET (toks_elem (EGroup nd f o r) ++ toks_partials op rest ++ k) = false) by reflexivity.
+      assert (Hl : is_tk LPAREN (toks_elem (EGroup nd f o r) ++ toks_partials op rest ++ k) = true) by reflexivity.
+      rewrite Hb, Hl. destruct direct.
+      + destruct nd; [discriminate Hf|]. cbn [wf_leading] in Hf. apply andb_prop in Hf. destruct Hf as [Hf Hr'].
+        apply andb_prop in Hf. destruct Hf as [Hf' Hp']. destruct (proj1 (toks_ok_group _ _ _ _) Okf) as [Okf' Okr'].
+        rewrite depth_group in Hd.
+        rewrite toks_elem_group. cbn [app tl]. rewrite <- app_assoc. cbn [app].
+        unfold toks_def at 1. rewrite <- app_assoc. rewrite (elem_hd_not_ws f _ Okf'). rewrite app_assoc. fold (toks_def f o r).
+        rewrite (HR true f o r (mk RPAREN :: toks_partials op rest ++ k)); [|unfold depth_def; lia|repeat split; assumption|apply stops_rparen].
+        cbn [skip_opt tk mk]. replace (tk_eqb RPAREN WHITESPACE) with false by reflexivity. cbn [expect tk mk]. rewrite tk_eqb_refl. reflexivity.
+      + apply (operand_complete rec dd (EGroup nd f o r) _ HR); [lia|exact Hf|exact Okf|exact Hafter]. }
+  rewrite Hfirst. clear Hfirst.
+  destruct rest as [|e r].
+  - destruct op; try discriminate Hp. cbn [toks_partials app]. unfold peek_op. rewrite (stops_not_ws k Hk). reflexivity.
+  - assert (Hop' : op <> ONone) by (apply Hop; discriminate).
+    assert (Hpk : peek_op (toks_partials op (e :: r) ++ k) = op).
+    { cbn [toks_partials app]. unfold peek_op. rewrite is_tk_mk. cbn [hd2_tk tk mk]. apply op_of_optok. exact Hop'. }
+    rewrite Hpk.
+    assert (Hpart : p_partials_with rec (S (length (toks_partials op (e :: r) ++ k))) op (toks_partials op (e :: r) ++ k) = Some (e :: r, k)).
+    { apply (partials_complete rec dd op Hop' HR (e :: r) _ k); try assumption; try lia.
+      - rewrite app_length. assert (length (e :: r) <= length (toks_partials op (e :: r)))%nat.
+        { generalize (e :: r). clear. induction l as [|x l IH]; cbn [toks_partials length]; [lia|]. rewrite app_length. lia. }
+        lia.
+      - intros ->. destruct r; [cbn; lia|discriminate Hp].
+      - left. discriminate. }
+    destruct op; try contradiction; rewrite Hpart; reflexivity.
+Qed.
+
+Theorem p_def_complete : forall n, RecOK (p_def n) n.
+Proof.
+  induction n as [|n IH]; intros direct first op rest k Hd Hok Hk; [lia|].
+  cbn [p_def]. apply (def_body_complete (p_def n) n); try assumption. lia.
+Qed.
+
+(* the statement: every grammatical relation definition is what the parser returns for its canonical tokens *)
+Theorem parser_complete_for_definitions d k :
+  wf_rdef d = true -> toks_ok (rd_first d) -> toks_ok_all (rd_rest d) -> stops k ->
+  p_def (S (depth_def (rd_first d) (rd_rest d))) true (toks_def (rd_first d) (rd_op d) (rd_rest d) ++ k)
+  = Some ((rd_first d, rd_op d, rd_rest d), k).
+Proof.
+  intros Hwf Ok1 Ok2 Hk. unfold wf_rdef in Hwf. apply andb_prop in Hwf. destruct Hwf as [Hwf Hr]. apply andb_prop in Hwf. destruct Hwf as [Hf Hp].
+  apply p_def_complete; [lia|repeat split; assumption|exact Hk].
+Qed.
